@@ -112,6 +112,18 @@ Proof. reflexivity. Qed.
 Print Assumptions C09_no_shared_numbers.
 Local Close Scope string_scope.
 
+(* package-level variables that function bodies assign to (state that lives as long as the process, not as long as the
+   chain): the time stamp of the "Block took N s" log line, and the codec set up at package initialisation. A new one is a
+   way for what a block computes to depend on what the process did before — a restarted node has done nothing. *)
+Local Open Scope string_scope.
+Definition expected_written_globals : list (string * string * string) :=
+  [("x/clp/abci.go", "MeasureBlockTime", "blockTime");          (* log line only *)
+   ("x/oracle/types/codec.go", "init", "ModuleCdc")].          (* package initialisation *)
+Theorem C09_no_process_state : gen_written_globals = expected_written_globals.
+Proof. reflexivity. Qed.
+Print Assumptions C09_no_process_state.
+Local Close Scope string_scope.
+
 (* the hypotheses are satisfiable: three recipients, one of them blocked, two orders *)
 Example C09_example :
   let b := mkBank [(1, [(0, 100)])] [(0, 100)] in
